@@ -4,7 +4,7 @@ L3-crash: the directory images a process crash can leave behind while Store.Flus
 Process-crash semantics (DESIGN.md section 5, C03): bytes reach a file in the order they were written; an
 append can be cut at ANY byte; files are written in the order of the code — primary files (ascending file
 number, a new file is created when the previous one is full), then index files (ascending), then the
-freelist — which is the call order the regenerated fact `C03_commit_order` (Sth/Obligations/Order.lean)
+freelist — which is the call order the regenerated fact `C03_commit_order` (Sth/Obligations/FactsC03.lean)
 checks in store.go on every run.  A flush only appends and creates files (headers, snapshot and `.gc` file
 are not touched), so an image is determined by how many EVENTS of the ordered stream happened, where an event
 is the creation of a new file or one appended byte.
